@@ -93,6 +93,10 @@ func main() {
 			fmt.Fprintln(os.Stderr, err)
 			os.Exit(2)
 		}
+		if *list && *grep != "" {
+			debugFuncs(p, *grep)
+			return
+		}
 		if *list {
 			for _, f := range p.RepoFuncs() {
 				fmt.Println(QualName(f))
